@@ -16,7 +16,9 @@
      lnk <path>                     (cgio_is_link / cgio_link_size / cgio_get_link)
      open2 <file> <adf|hdf5>        second file, write mode      copy2 <path> <name>   (new node under the root of
                                     file 2 + cgio_copy_node)      copyfile2   (cgio_copy_file)     close2
-     version   flush   compress   close */
+     version   flush   compress   close
+     cgopen <w|m> <adf|hdf5>   base <name>   zone <name> <n>   coord <name> <seed>   sol <name>   field <name> <seed>
+     desc <name> <text>   cgclose      (mid-level sessions, as in c14_h.c) */
 #include <stdio.h>
 #include <stdlib.h>
 #include <string.h>
@@ -25,7 +27,7 @@
 #include "cgns_io.h"
 #include "c15_dump.c"
 
-static int cg = 0, cg2 = 0;
+static int cg = 0, cg2 = 0, fn = -1, B = 1, Z = 1, S = 1, zn = 2;
 static double root, root2;
 
 static void *gen(const char *type, long n, unsigned long long seed, size_t *nbytes)
@@ -182,6 +184,26 @@ int main(int argc, char **argv)
         else if (!strncmp(line, "flush", 5)) ier = cgio_flush_to_disk(cg);
         else if (!strncmp(line, "compress", 8)) ier = cgio_compress_file(cg, argv[2]);
         else if (!strncmp(line, "close", 5)) ier = cgio_close_file(cg);
+        else if (sscanf(line, "cgopen %1023s %1023s", a, b) == 2) {
+            ier = cg_set_file_type(!strcmp(b, "hdf5") ? CG_FILE_HDF5 : CG_FILE_ADF);
+            if (!ier) ier = cg_open(argv[2], a[0] == 'w' ? CG_MODE_WRITE : CG_MODE_MODIFY, &fn);
+        } else if (sscanf(line, "base %1023s", a) == 1) ier = cg_base_write(fn, a, 3, 3, &B);
+        else if (sscanf(line, "zone %1023s %ld", a, &n) == 2) {
+            cgsize_t size[9] = {0};
+            zn = (int)n;
+            size[0] = size[1] = size[2] = n; size[3] = size[4] = size[5] = n - 1;
+            ier = cg_zone_write(fn, B, a, size, CGNS_ENUMV(Structured), &Z);
+        } else if (sscanf(line, "coord %1023s %llu", a, &seed) == 2) {
+            size_t nb; int C; void *v = gen("R8", (long)zn * zn * zn, seed, &nb);
+            ier = cg_coord_write(fn, B, Z, CGNS_ENUMV(RealDouble), a, v, &C); free(v);
+        } else if (sscanf(line, "sol %1023s", a) == 1) ier = cg_sol_write(fn, B, Z, a, CGNS_ENUMV(Vertex), &S);
+        else if (sscanf(line, "field %1023s %llu", a, &seed) == 2) {
+            size_t nb; int F; void *v = gen("R8", (long)zn * zn * zn, seed, &nb);
+            ier = cg_field_write(fn, B, Z, S, CGNS_ENUMV(RealDouble), a, v, &F); free(v);
+        } else if (sscanf(line, "desc %1023s %1023s", a, b) == 2) {
+            ier = cg_goto(fn, B, "end");
+            if (!ier) ier = cg_descriptor_write(a, b);
+        } else if (!strncmp(line, "cgclose", 7)) ier = cg_close(fn);
         else continue;
         printf("s %d\n", ier);
         fflush(stdout);
